@@ -69,7 +69,7 @@ func (c *checkCtx) confirm(v Violation) (bool, string) {
 		defer os.Remove(tmp)
 		seen := map[string]int{}
 		for i := 0; i < 8; i++ {
-			w := runWorker(c.S.Plain, []string{replayCmd[v.Engine], "-file", tmp}, []string{"GOMAXPROCS=1"}, 5*time.Minute)
+			w := runWorker(c.S.Plain, []string{replayCmd[v.Engine], "-file", tmp, "-k", strconv.Itoa(i)}, []string{"GOMAXPROCS=1"}, 5*time.Minute)
 			for _, d := range w.Docs {
 				if docType(d) == "replay" {
 					var cl string
